@@ -1,6 +1,8 @@
 package service
 
 import (
+	"time"
+
 	"bytes"
 	"math/big"
 
@@ -23,6 +25,15 @@ func VerifC11_ServiceEndBlock() {
 	one := big.NewInt(1)
 	price := verifIntIn("price", one, verifPow2(40))
 	e.bind(e.p1, price, sdkmath.NewInt(6000), sdkmath.LegacyDec{}, 5, true)
+	if verifChoice("timedPromotion", 2) == 1 {
+		// the provider's price is halved during a window around the block time: what a request costs is a
+		// matter of the BLOCK's time, whatever the host's clock says
+		pr := e.k.GetPricing(e.ctx, svService, e.p1)
+		bt := e.ctx.BlockTime()
+		pr.PromotionsByTime = []types.PromotionByTime{{StartTime: bt.Add(-time.Hour), EndTime: bt.Add(time.Hour), Discount: sdkmath.LegacyNewDecWithPrec(5, 1)}}
+		e.k.SetPricing(e.ctx, svService, e.p1, pr)
+	}
+	timed := verifChoice("timedPromotion", 2) == 1
 	n := 2 + verifChoice("thirdContext", 2)
 	var ids []tmbytes.HexBytes
 	for i := 0; i < n; i++ {
@@ -45,12 +56,14 @@ func VerifC11_ServiceEndBlock() {
 		return e.dump(), e.bal(e.consumer), e.reqEscrow()
 	}
 	verifMapOrderSymbolic(true)
+	verifClockSymbolic(true)
 	same := true
 	for try := 0; try < verifTries() && same; try++ {
 		d1, c1, q1 := run()
 		d2, c2, q2 := run()
 		same = len(svChangedKeys(d1, d2)) == 0 && c1.Cmp(c2) == 0 && q1.Cmp(q2) == 0
 	}
+	verifClockSymbolic(false)
 	verifMapOrderSymbolic(false)
 	served := 0
 	for _, id := range ids {
@@ -64,4 +77,17 @@ func VerifC11_ServiceEndBlock() {
 		verifCover("someUnfunded")
 	}
 	verifAssert(same, "two executions of the same end-block on the same state end in the same state")
+	// and the fee of every request issued is the price in force at the BLOCK's time
+	fee := price.BigInt()
+	if timed {
+		fee = new(big.Int).Quo(fee, big.NewInt(2))
+	}
+	for _, id := range ids {
+		it := e.k.RequestsIteratorByReqCtx(e.ctx, id, 1)
+		for ; it.Valid(); it.Next() {
+			r, ok := e.k.GetRequest(e.ctx, tmbytes.HexBytes(it.Key()[1:]))
+			verifAssert(ok && r.ServiceFee.AmountOf(svDenom).BigInt().Cmp(fee) == 0, "every request issued records the price in force at the block's time as its fee")
+		}
+		it.Close()
+	}
 }
